@@ -17,6 +17,7 @@ static struct cmd cmds[] = {
   {"c13", cmd_c13},
   {"c07", cmd_c07},
   {"c06", cmd_c06},
+  {"c08", cmd_c08},
   {NULL, NULL}
 };
 int main(int argc, char **argv) {
